@@ -15,7 +15,7 @@ import (
 )
 
 type Op struct {
-	Op    string          `json:"op"` // U update, SA sendall, W wait for the updater's own save, S save (mode direct), R start a second dastard on the directory, K kill during the last save and start again (mode direct), SAQ SendAllStatus through the real RPC method while the updater's queue is full (mode hist)
+	Op    string          `json:"op"` // U update, SA sendall, W wait for the updater's own save, S save (mode direct), R start a second dastard on the directory, K kill during the last save and start again (mode direct), SAQ SendAllStatus through the real RPC method while the updater's queue is full (mode hist), SRC start a source / start writing / stop the source through the real SourceControl (mode hist; N=1: WriteControl Stop first)
 	Tag   string          `json:"tag,omitempty"`
 	Typed bool            `json:"typed,omitempty"`
 	Val   json.RawMessage `json:"val,omitempty"`
@@ -55,7 +55,7 @@ func runCase(c Case) lib.Result {
 		} else {
 			term, impl, nt = runHist(c, scratch, tags)
 		}
-		if !tags["slow-run"] || attempt >= 2 {
+		if !(tags["slow-run"] || tags["save-during-extern"]) || attempt >= 2 {
 			break
 		}
 	}
@@ -115,6 +115,8 @@ func classify(c Case, tags map[string]bool) {
 			tags["restart-op"] = true
 		case "K":
 			tags["kill-op"] = true
+		case "SRC":
+			tags["sourcecontrol-op"] = true
 		case "SAQ":
 			tags["sendall-via-rpc-method"] = true
 			tags["sendall"] = true
@@ -135,6 +137,9 @@ func classify(c Case, tags map[string]bool) {
 	if c.Dir.TmpIsDir {
 		tags["tmp-is-directory"] = true
 	}
+	if c.Dir.MainSymlink {
+		tags["main-is-symlink"] = true
+	}
 	if c.Dir.BakIsDir {
 		tags["bak-is-directory"] = true
 	}
@@ -154,8 +159,8 @@ func main() {
 		Verdict:  "verdict",
 		PerShard: 25,
 		Isolate:  true,
-		Chunk:    6,
-		Workers:  16,
+		Chunk:    4,
+		Workers:  32,
 	}
 	// scratch space next to the input/output of this invocation (under /verif/build/run/...)
 	scratchRoot = "."
